@@ -229,7 +229,13 @@ def cmd_run(args):
 
     def total(suffix):
         return sum(v for k, v in st.items() if k.endswith("." + suffix))
-    evaluations = total("executed") or total("cases")
+    # per section: executions actually run (harnesses that skip symmetric / out-of-bound index points count "executed")
+    evaluations = 0
+    for k, v in st.items():
+        if k.endswith(".cases") and (k[:-6] + ".executed") not in st:
+            evaluations += v
+        elif k.endswith(".executed"):
+            evaluations += v
     states = total("states")
     transitions = total("transitions") or total("ops") or evaluations
     nontrivial = total("nontrivial")
